@@ -266,7 +266,7 @@ def run(scn, sb):
                                                                      'duplicate_genes', 'output_dir_missing'))
         res['key'] = model.canonical_json([scn['layout'], case, scn['cfg'], scn.get('fault')])
         res['sample'] = {'case': case, 'layout': scn['layout'], 'outcome': out[0],
-                         'message': (out[1] or '')[:160] if out[0] == 'raised' else None,
+                         'message': (out[1] or '').replace(sb.base, '<sandbox>')[:160] if out[0] == 'raised' else None,
                          'scanned': [w for w, t in texts]}
         res['ticks'] = KERNEL.n_ticks
         return res
